@@ -33,6 +33,7 @@ type c08Scenario struct {
 	tick    int        // seconds advanced after warm-up (e.g. R+1 to make entries stale)
 	twoSK   bool       // create the first record, then expire the SK, so that two SK generations exist
 	maxBound   int     // 0 = the tier's bound; otherwise the highest preemption bound explored for this scenario
+	foreign    []string // partitions whose record is produced by another factory in the set-up; no session of the factory under test is opened for them
 	evictFirst bool    // the records of the last partitions are produced by another factory, so that the cache under test never held them
 }
 
@@ -73,6 +74,16 @@ func (sc *c08Scenario) setup() *c08State {
 			vclock.Advance((E + 1) * time.Second)
 		}
 	}
+	for _, p := range sc.foreign {
+		os, _ := other.GetSession(p)
+		st.payload[p] = payloadFor(p)
+		r, err := os.Encrypt(ctx, append([]byte(nil), st.payload[p]...))
+		if err != nil {
+			panic(err)
+		}
+		st.recs[p] = r
+		os.Close()
+	}
 	other.Close()
 	for _, op := range sc.warm {
 		if res := st.do(op); res.err != nil || res.pan != "" {
@@ -104,6 +115,16 @@ func (st *c08State) do(op string) (res opResult) {
 				res.err = err2
 				res.ok = err2 == nil && bytes.Equal(out, pl)
 			}
+		case "hold": // open a session of the factory, decrypt the partition's existing record, close
+			s, err := st.f.GetSession(part)
+			if err != nil {
+				res.err = err
+				return
+			}
+			out, err := s.Decrypt(ctx, *st.recs[part])
+			res.err = err
+			res.ok = err == nil && bytes.Equal(out, st.payload[part])
+			s.Close()
 		case "sess":
 			s, err := st.f.GetSession(part)
 			if err != nil {
@@ -228,6 +249,9 @@ func c08Scenarios(thorough bool) []c08Scenario {
 			threads: [][]string{{"enc:A", "dec:A"}, {"sess:A"}, {"sess:B"}}},
 		c08Scenario{name: "H6-session-cache", spec: SpecSessions("slru", 1), parts: []string{"A"},
 			threads: [][]string{{"dec:A"}, {"sess:B"}}},
+		// two holders of one cached session while it is evicted: the close of the other holder must not tear it down
+		c08Scenario{name: "H6-session-cache-2holders", spec: SpecSessions("slru", 1), parts: []string{"A"},
+			foreign: []string{"B"}, threads: [][]string{{"dec:A", "dec:A"}, {"hold:A"}, {"hold:B"}}},
 	)
 	if thorough {
 		out = append(out,
